@@ -226,3 +226,28 @@ def run(chk, repo):
         chk.decide(unparse(s.value) in ("inner(%s, %s)" % (tgt, tgt),), "C11.error", W("levinson_durbin"), short(s),
                    why="the prediction error must be the inner product <A, A> of the solution with itself, sign included",
                    node=s)
+
+    # parcor is a generator: every call has to get a generator of its own, and every order has to yield its coefficient
+    chk.rule("C11.generator", "parcor is not memoised (a cached generator is handed out used) and its loop yields one "
+                              "coefficient per order: no continue / break / return in the loop body outside the handler "
+                              "of the caught division")
+    pc_ = repo.find(LL, "parcor")
+    memo = [unparse(d) for d in pc_.decorator_list if any(w in unparse(d) for w in ("cache", "memo", "lru"))]
+    chk.decide(not memo, "C11.generator", W("parcor"), "decorators: %s" % ([unparse(d) for d in pc_.decorator_list] or "none"),
+               why="a memoised generator function returns the same generator object for an equal filter: the second call "
+                   "sees it exhausted (or suspended in the middle)", node=pc_)
+    for lp_ in [n for n in ast.walk(pc_) if isinstance(n, (ast.For, ast.While)) and any(isinstance(x, ast.Yield) for x in ast.walk(n))]:
+        jumps = []
+        for n in ast.walk(lp_):
+            if isinstance(n, (ast.Continue, ast.Break, ast.Return)):
+                p_ = getattr(n, "_parent", None)
+                in_handler = False
+                while p_ is not None and p_ is not lp_:
+                    if isinstance(p_, ast.ExceptHandler):
+                        in_handler = True
+                    p_ = getattr(p_, "_parent", None)
+                if not in_handler:
+                    jumps.append(n)
+        chk.decide(not jumps, "C11.generator", W("parcor"), "the step-down loop has no shortcut past its yield (%d found)" % len(jumps),
+                   why="an iteration that is skipped (e.g. for a zero coefficient) yields nothing: the sequence of reflection "
+                       "coefficients loses an order and the step-up no longer rebuilds the filter", node=jumps[0] if jumps else lp_)
